@@ -56,7 +56,11 @@ TStep ==
      /\ l' = l + 1 /\ tid' = tid
      /\ heap' = post
      /\ (l = 0 /\ EnfC10) => \A o \in 1..Len(heap) :
-          ChkS(tr, 0, "initial IOAPI object " \o ToString(o) \o " is not coherent", CoherentDiag(heap[o].f, heap[o].m))
+          ChkS(tr, 0, "initial IOAPI object " \o ToString(o) \o " is not coherent",
+               IF CoherentSansTflag(heap[o].f, heap[o].m) THEN "" ELSE CoherentDiag(heap[o].f, heap[o].m))
+     \* files from the in-memory constructors (arrays, GRIDDESC text, by hand)
+     /\ (l = 0) => \A o \in 1..Len(heap) : heap[o].m.isioapi =>
+          ChkT(tr, 0, "C01 constructor: IOAPI time-step dimension of object " \o ToString(o) \o " is not unlimited", TstepUnlimited(heap[o].f))
      /\ (EnfISO => \A o \in 1..Len(heap) :
             (o # (IF e.act = "delvar" THEN e.src ELSE 0)) =>
                ChkS(tr, l + 1, "C05 " \o e.act \o ": IOAPI object " \o ToString(o) \o " was modified by the call",
@@ -77,7 +81,8 @@ TStep ==
                /\ ChkT(tr, l + 1, "C10 " \o e.act \o ": a metadata attribute is missing or not representable", MetaOK(g.m))
                /\ KnownOr(tr, l + 1, "C10 " \o e.act \o ": metadata incoherent after the operation",
                           CoherentDiag(g.f, g.m), C10Deviation(e, src, g))
-          /\ (EnfC11 /\ e.act = "slice" /\ IsWindow(src.f, e.args) /\ Coherent(src.f, src.m)
+          /\ (EnfC11 /\ e.act = "slice" /\ IsWindow(src.f, e.args)
+                /\ (Coherent(src.f, src.m) \/ CoherentSansTflag(src.f, src.m))
                 /\ MetaOK(src.m) /\ src.m.times_ok /\ src.m.vglvls_exact) =>
                /\ ChkT(tr, l + 1, "C11: metadata of the window missing or not representable", MetaOK(g.m) /\ g.m.times_ok /\ g.m.vglvls_exact)
                /\ ChkS(tr, l + 1, "C11 window does not keep referencing", WindowDiag(src.f, src.m, e.args, g.f, g.m))
